@@ -6,6 +6,7 @@ import (
 	"sort"
 	"strconv"
 	"strings"
+	"time"
 
 	"github.com/practable/relay/internal/chanmap"
 )
@@ -13,6 +14,7 @@ import (
 // mode chanmap: the real chanmap.Store; after every op the complete state is printed
 func init() {
 	register("chanmap", func(args []string) {
+		opTimeout = 2 * time.Second // store operations are instantaneous; one that does not return has dead-locked
 		runLines(func() func(fs []string) string {
 			s := chanmap.New()
 			chans := map[int]chan struct{}{}
